@@ -146,6 +146,8 @@ pub enum Tamper {
     Multi(u8, Multi),
     /// the ciphertext is untouched but the recipient uses the key -de (same x coordinate as de)
     NegatedKey,
+    /// C1 whose coordinates are special values #i, #j of {0, 1, p-1, p, N, 2^256-1}; C3/C2 left alone ((0,0) is how some encoders write infinity)
+    C1Special(u8, u8),
 }
 
 #[derive(Serialize, Deserialize, Hash, Debug, Clone)]
@@ -238,6 +240,12 @@ pub fn check_tamper(c: &TCase) -> CaseResult {
             class = "C1-x+p";
         }
         Tamper::NegatedKey => class = "negated-key",
+        Tamper::C1Special(i, j) => {
+            let vals: Vec<BigUint> = vec![BigUint::from(0u32), BigUint::one(), pr.p - 1u32, pr.p.clone(), pr.n.clone(), (BigUint::one() << 256) - 1u32];
+            ct[1..33].copy_from_slice(&to32(&vals[*i as usize % vals.len()]));
+            ct[33..65].copy_from_slice(&to32(&vals[*j as usize % vals.len()]));
+            class = "C1-special-coordinates";
+        }
         Tamper::Multi(region, m) => {
             let n = ct.len();
             let (lo, hi, name) = match region % 4 {
@@ -334,6 +342,7 @@ pub fn tamper_strategy() -> impl Strategy<Value = Tamper> {
         1 => Just(Tamper::C1XPlusP),
         1 => Just(Tamper::C1YPlusP),
         1 => Just(Tamper::NegatedKey),
+        1 => (0..6u8, 0..6u8).prop_map(|(i, j)| Tamper::C1Special(i, j)),
         1 => Just(Tamper::None),
         6 => (prop_oneof![3 => Just(0u8), 1 => Just(1u8), 1 => Just(2u8), 1 => Just(3u8)], multi::strategy()).prop_map(|(r, m)| Tamper::Multi(r, m)),
     ]
@@ -454,6 +463,11 @@ pub fn run(ctx: &Ctx) {
             }
             for j in 0..6u64 {
                 v.push(TCase { base: b.clone(), tamper: Tamper::C1OffCurveForged(j) });
+            }
+            for i in 0..6u8 {
+                for j in 0..6u8 {
+                    v.push(TCase { base: b.clone(), tamper: Tamper::C1Special(i, j) });
+                }
             }
         }
         v
